@@ -43,7 +43,7 @@ def run(ctx):
     kinds = {}
     for r in recs:
         kinds[r["scn"]["kind"]] = kinds.get(r["scn"]["kind"], 0) + 1
-    if set(kinds) != {"option", "sgemem", "script", "logclean"}:
+    if set(kinds) != {"option", "sgemem", "script", "logclean", "twoopts"}:
         raise Machinery("scenario kinds missing: %s" % kinds)
     cov = ctx.cov
     cov["evaluations"] = len(recs)
